@@ -179,14 +179,18 @@ class BuildSystem():
 
             processor.run_molecule(molecule)
 
+            # only positions generated by the random walk are discarded; residues
+            # with given coordinates must be kept for the next attempt
+            built_nodes = [node for node in molecule.nodes
+                           if molecule.nodes[node].get("build", True)]
             if processor.success:
                 return True, processor.nonbond_matrix
             elif step_count == self.maxiter:
-                processor.nonbond_matrix.remove_positions(mol_idx, molecule.nodes)
+                processor.nonbond_matrix.remove_positions(mol_idx, built_nodes)
                 return False, processor.nonbond_matrix
             else:
                 step_count += 1
-                self.nonbond_matrix.remove_positions(mol_idx, molecule.nodes)
+                self.nonbond_matrix.remove_positions(mol_idx, built_nodes)
 
     def _compose_system(self, molecules):
         """
